@@ -42,6 +42,9 @@ Proof.
   destruct (num_cmp a b); cbn; repeat split; reflexivity.
 Qed.
 
+Lemma mask_ok a b : mask a b = mask6 a b.
+Proof. unfold mask, mask6, p_lt, p_eq, p_gt, p_le, p_ge, p_ne. destruct (num_cmp a b); reflexivity. Qed.
+
 (* on exact numbers the order is the order of the rationals, hence transitive *)
 Lemma exact_le_trans a b c : wf a -> wf b -> wf c ->
   is_float a = false -> is_float b = false -> is_float c = false ->
